@@ -135,8 +135,20 @@ def showOut : Out → String
   | .ok rc => s!"ok {rc}"
   | .err _ => "err"
 
+/-- `compact <ts> <date> <b:j:a>…`: the compaction loops run while billing updates for those attempts are committed by another
+connection between their transactions, the last one with timestamp ts + 3.  Whole transactions commute with that as far as the dump
+can see (usage sums per key): the model applies the last billing update, then `compact`. -/
+def compactWithHeartbeat? (ws : List String) : Option (Op × Op) :=
+  match ws with
+  | "compact" :: ts :: d :: atts@(_ :: _) => do
+    pure (.heartbeat (← atts.mapM triple?) ((← ts.toInt?) + 3) (← d.toNat?), .compact)
+  | _ => none
+
 def stepLine (s : State) (line : String) : State × String :=
   if line == "dump" then (s, dump s) else
+  match compactWithHeartbeat? (words line) with
+  | some (hb, c) => let (s1, _) := step s hb; let (s2, o) := step s1 c; (s2, showOut o)
+  | none =>
   match parseOp (words line) with
   | none => (s, "bad-op")
   | some op =>
